@@ -361,6 +361,7 @@ func checkV2ReadsLevel(t *iavl2.Tree, c smap, root *ref.Node, what string, level
 }
 
 type v2Stats struct {
+	interrupted               int64 // executions of scenario 2b (a commit interrupts a running prune after k steps)
 	execs, subexecs, versions int64
 	pruneIncomplete           int64
 }
@@ -599,6 +600,87 @@ func runC20(cfg v2Cfg, hist []v2Block, conts []v2Block, dir string, st *v2Stats)
 				return f
 			}
 			t2.close()
+		}
+	}
+	// 2b. a commit arrives while a prune is running: for every prune point p, every loop (leaves / branches) and every
+	// k, the loop is stopped after exactly k pruning steps (it keeps polling its channels, like a step that has not been
+	// scheduled yet), one more version is committed (the loop serves it on its interrupt path), the loop is released,
+	// both loops finish; then everything that must remain is reloaded, incl. the new version. k grows until the
+	// prune finishes before the hold is reached (then the execution equals the uninterrupted one).
+	if v2IdleHook && len(conts) > 0 && n >= 2 {
+		for p := int64(1); p < n; p++ {
+			for loop := 0; loop < 2; loop++ {
+				for k := int64(0); k < 64; k++ {
+					tt, d, err := fresh()
+					if err != nil {
+						return "reopen: " + err.Error()
+					}
+					if err := tt.tree.LoadVersion(n); err != nil {
+						tt.close()
+						return fmt.Sprintf("LoadVersion(%d) before pruning failed: %v", n, err)
+					}
+					idleBefore := [2]int64{pruneLoopIdle(0), pruneLoopIdle(1)}
+					pruneHoldArm(loop, k)
+					if err := tt.tree.DeleteVersionsTo(p); err != nil {
+						pruneHoldRelease(idleBefore)
+						tt.close()
+						return fmt.Sprintf("DeleteVersionsTo(%d): %v", p, err)
+					}
+					holding, ok := pruneHoldWait(loop, idleBefore[loop])
+					if !ok {
+						atomic.AddInt64(&st.pruneIncomplete, 1)
+						pruneHoldRelease(idleBefore)
+						break // inconclusive: the tree is leaked rather than closed under a running loop
+					}
+					what := fmt.Sprintf("DeleteVersionsTo(%d) with the %s loop interrupted after %d steps by the commit of version %d", p, []string{"leaf", "branch"}[loop], k, n+1)
+					cm := &v2Model{c: m.conts[n].clone(), root: m.roots[n], ver: n, hashes: map[int64][]byte{}, conts: map[int64]smap{}, roots: map[int64]*ref.Node{}}
+					tw := newV2Model()
+					for _, b := range hist {
+						if f := applyBlockModelOnly(tw, b); f != "" {
+							panic(f)
+						}
+					}
+					cm.v1 = tw.v1
+					f := applyBlock(tt.tree, cm, conts[int(p+k)%len(conts)])
+					cm.v1.Close()
+					if !pruneHoldRelease(idleBefore) {
+						atomic.AddInt64(&st.pruneIncomplete, 1)
+						break
+					}
+					if f != "" {
+						tt.close()
+						return what + ": " + f
+					}
+					atomic.AddInt64(&st.interrupted, 1)
+					tt.close()
+					for v := lastCpAtOrBefore(p); v <= n+1; v++ {
+						hash, cont, root := m.hashes[v], m.conts[v], m.roots[v]
+						if v == n+1 {
+							hash, cont, root = cm.hashes[v], cm.conts[v], cm.roots[v]
+						}
+						t2, err := openV2(d, cfg)
+						if err != nil {
+							return "reopen after " + what + ": " + err.Error()
+						}
+						if err := t2.tree.LoadVersion(v); err != nil {
+							t2.close()
+							return fmt.Sprintf("after %s (checkpoints %v): LoadVersion(%d) failed: %v", what, cps, v, err)
+						}
+						if !bytes.Equal(t2.tree.Hash(), hash) {
+							t2.close()
+							return fmt.Sprintf("after %s: LoadVersion(%d) hash %x, expected %x", what, v, t2.tree.Hash(), hash)
+						}
+						if f := checkV2Reads(t2.tree, cont, root, fmt.Sprintf("version %d after %s", v, what), false); f != "" {
+							t2.close()
+							return f
+						}
+						t2.close()
+					}
+					if !holding {
+						break // the prune had fewer than k steps: larger k repeat this execution
+					}
+				}
+			}
 		}
 	}
 	// 3. snapshots (pre- and post-order) of the latest version
@@ -887,14 +969,14 @@ func runV2Jobs(c *Ctx, jobs []v2Job, persistence bool, conts []v2Block) *Result 
 	for _, i := range []int{0, len(jobs) / 2, len(jobs) - 1} {
 		res.Samples = append(res.Samples, fmt.Sprintf("[%s] %s", jobs[i].cfg, histStr(jobs[i].hist)))
 	}
-	res.Extra = map[string]any{"v2": map[string]any{"histories_x_configs": len(jobs), "executed": st.execs, "reopen_sub_executions": st.subexecs, "versions_committed": st.versions, "prune_waits_timed_out": st.pruneIncomplete, "failures": len(fails)}}
+	res.Extra = map[string]any{"v2": map[string]any{"histories_x_configs": len(jobs), "executed": st.execs, "reopen_sub_executions": st.subexecs, "versions_committed": st.versions, "prune_waits_timed_out": st.pruneIncomplete, "commits_interrupting_a_prune_after_k_steps": st.interrupted, "failures": len(fails)}}
 	id := "C19"
 	if persistence {
 		id = "C20"
 	}
 	if os.Getenv("VERIF_V2_SHARD") != "" {
 		// worker mode: hand the raw numbers and failures to the parent
-		out := map[string]any{"execs": st.execs, "subexecs": st.subexecs, "versions": st.versions, "prune_timeouts": st.pruneIncomplete, "complete": complete, "fails": fails, "samples": res.Samples, "jobs": len(jobs)}
+		out := map[string]any{"execs": st.execs, "subexecs": st.subexecs, "versions": st.versions, "prune_timeouts": st.pruneIncomplete, "interrupted": st.interrupted, "complete": complete, "fails": fails, "samples": res.Samples, "jobs": len(jobs)}
 		b, _ := json.Marshal(out)
 		fmt.Println("V2-WORKER-RESULT " + string(b))
 		os.Exit(0)
@@ -1046,7 +1128,7 @@ func runV2Parent(c *Ctx, njobs int, persistence bool) *Result {
 	}
 	res := &Result{}
 	complete := true
-	var execs, subs, versions, timeouts float64
+	var execs, subs, versions, timeouts, interrupted float64
 	var fails []string
 	for k := 0; k < n; k++ {
 		r := <-ch
@@ -1059,6 +1141,9 @@ func runV2Parent(c *Ctx, njobs int, persistence bool) *Result {
 		subs += r.out["subexecs"].(float64)
 		versions += r.out["versions"].(float64)
 		timeouts += r.out["prune_timeouts"].(float64)
+		if x, ok := r.out["interrupted"].(float64); ok {
+			interrupted += x
+		}
 		if !r.out["complete"].(bool) {
 			complete = false
 		}
@@ -1074,7 +1159,7 @@ func runV2Parent(c *Ctx, njobs int, persistence bool) *Result {
 	sort.Strings(fails)
 	res.States, res.Transitions = int(execs+subs), int(execs+subs+versions)
 	res.Exhaustive = &complete
-	res.Extra = map[string]any{"v2": map[string]any{"histories_x_configs": njobs, "executed": execs, "reopen_sub_executions": subs, "versions_committed": versions, "prune_waits_timed_out": timeouts, "failures": len(fails), "worker_processes": n}}
+	res.Extra = map[string]any{"v2": map[string]any{"histories_x_configs": njobs, "executed": execs, "reopen_sub_executions": subs, "versions_committed": versions, "prune_waits_timed_out": timeouts, "commits_interrupting_a_prune_after_k_steps": interrupted, "failures": len(fails), "worker_processes": n}}
 	for _, f := range fails {
 		if kid := c.KF.MatchRaw(id, f); kid != "" {
 			c.KF.NoteRaw(kid, oneLine(f))
